@@ -120,6 +120,20 @@ RefusalVectors ==
     \cup {[tool |-> "kthlist2pebbling", name |-> "", valid |-> a, kinds |-> <<>>, fmt |-> "default", dev |-> "build_refusal",
            pos |-> 0, cls |-> "", opts |-> {}] : a \in OtherRefusals}
 
+\* Every transformation name with no argument at all, with one argument and with too many: whether that is a
+\* legal request depends on the transformation (flip takes none); the run must end in a formula or a clean error.
+TNames == {"none", "or", "xor", "and", "lift", "eq", "neq", "maj", "one", "exact", "atleast", "atmost", "anybut",
+           "ite", "flip", "shuffle", "xorcomp", "majcomp", "nosuch"}
+TArgLists == { <<>>, <<"1">>, <<"2", "1">>, <<"3", "2", "1", "4">>, <<"x">> }
+TArityVectors ==
+    {[tool |-> "cnfgen", name |-> "", valid |-> <<"php", "3", "2", "-T", t>> \o a, kinds |-> <<>>, fmt |-> "default",
+      dev |-> "raw", pos |-> 0, cls |-> "", opts |-> {}] : t \in TNames, a \in TArgLists}
+    \cup {[tool |-> "cnfgen", name |-> "", valid |-> <<"php", "3", "2", "-T", "flip", "-T", t>> \o a, kinds |-> <<>>,
+           fmt |-> "default", dev |-> "raw", pos |-> 0, cls |-> "", opts |-> {}] : t \in {"xorcomp", "majcomp", "lift"},
+                                                                                 a \in {<<>>, <<"1">>}}
+    \cup {[tool |-> "kthlist2pebbling", name |-> "", valid |-> <<"-i", "@gdfile", t>> \o a, kinds |-> <<>>,
+           fmt |-> "default", dev |-> "raw", pos |-> 0, cls |-> "", opts |-> {}] : t \in TNames, a \in TArgLists}
+
 \* Graph constructions with every combination of small numeric arguments (0 and 1 are where the
 \* validators and the samplers meet): the sub-command is the simplest one taking that graph type.
 Constructions == { <<"tiling", "gnp", 2>>, <<"tiling", "gnm", 2>>, <<"tiling", "gnd", 2>>, <<"tiling", "grid", 2>>,
@@ -156,7 +170,7 @@ OtherVectors ==
                  x \in OtherTools}
   \cup {V(x.tool, x.sc, "default", d, 0, "", {}) : x \in OtherTools,
             d \in {"missing_last", "extra_argument", "unknown_option", "help", "seed_word", "output_to_directory"}}
-AllVectors == Vectors \cup OtherVectors \cup RefusalVectors \cup SpecGridVectors \cup LargeVectors
+AllVectors == Vectors \cup OtherVectors \cup RefusalVectors \cup SpecGridVectors \cup LargeVectors \cup TArityVectors
 
 \* dimacs output cannot be asked of pbgen, and transformations are cnfgen's
 Expect(v) ==
